@@ -1142,3 +1142,33 @@ def nu_scope_probe():
         return res
     finally:
         cl.close()
+
+
+def nu_deep_meta_probe(depths=(3, 126, 127, 140)):
+    """C12: a Nushell script builds a meta record nested d levels and appends it (the only entry point that can build
+    a meta deeper than the JSON parser reads): the append is either refused or the frame reads back, and the stream
+    stays readable -> dict(violations, probes)"""
+    cl = Client("api")
+    out = dict(violations=[], probes=0)
+    try:
+        for d in depths:
+            sc = f'let x = (1..{d} | reduce --fold null {{|i, acc| {{a: $acc}}}}); "c" | .append deep{d} --meta $x | get id'
+            res = cl.cmd("nueval " + xh(sc))
+            out["probes"] += 1
+            dump = cl.cmd("dump") if cl.alive() else ""
+            st, hd, body = cl.request(H.render("GET", "/")) if cl.alive() else (None, {}, b"")
+            ok_read = dump.startswith("DUMP") and st == 200
+            accepted = res.startswith("NU ok")
+            if not ok_read:
+                out["violations"].append(dict(what=f"a Nushell script appended a frame with meta nested {d} levels ({res[:60]}); afterwards "
+                                                   f"reading the stream fails (dump: {dump[:40]!r}, GET / -> {st})"))
+                break
+            if accepted and f"deep{d}".encode() not in body:
+                out["violations"].append(dict(what=f"meta nested {d}: the append was acknowledged but the frame is not in the stream"))
+            if not accepted and f"deep{d}".encode() in body:
+                out["violations"].append(dict(what=f"meta nested {d}: the append was refused ({res[:80]}) but the frame is in the stream"))
+            if d <= 126 and not accepted:
+                out["violations"].append(dict(what=f"meta nested {d} (readable by the JSON parser) was refused: {res[:120]}"))
+        return out
+    finally:
+        cl.close()
